@@ -1,6 +1,7 @@
 //! hcobs_mc: bounded-exhaustive exploration of the real HCOBS Encoder/Decoder
 //! (C01 round trip, C02 output, C07 wire format, C09 streaming prefix + lag;
 //! C05 / C10 clauses for the codecs).
+mod arena_fill;
 mod closure;
 mod codec;
 mod longrun;
@@ -40,6 +41,7 @@ fn run(ctx: &Ctx) -> Report {
         "C09" => {
             tiny::tier1(ctx, &mut rep, Focus::Drain, &mut unit);
             prod::boundary_family(ctx, &mut rep, Focus::Drain, &mut unit);
+            arena_fill::arena_fill_family(ctx, &mut rep, &mut unit);
             owning_iovec::verif::drain_quarantine();
             longrun::run(ctx, &mut rep, &mut unit);
         }
@@ -47,13 +49,15 @@ fn run(ctx: &Ctx) -> Report {
             // the C05 clauses for the codecs: every slice exposed by Encoder/Decoder consumers
             // (anchored input included, decode errors included) lies in live memory
             tiny::tier1(ctx, &mut rep, Focus::Drain, &mut unit);
-            prod::boundary_family(ctx, &mut rep, Focus::RoundTrip, &mut unit);
+            prod::boundary_family(ctx, &mut rep, Focus::Drain, &mut unit);
             prod::decoder_error_paths(ctx, &mut rep, &mut unit);
+            arena_fill::arena_fill_family(ctx, &mut rep, &mut unit);
         }
         "C10" => {
             // the C10 clauses for the codecs: no leak after any run, bounded footprint while streaming
             prod::boundary_family(ctx, &mut rep, Focus::Drain, &mut unit);
             prod::decoder_error_paths(ctx, &mut rep, &mut unit);
+            arena_fill::arena_fill_family(ctx, &mut rep, &mut unit);
             owning_iovec::verif::drain_quarantine();
             longrun::run(ctx, &mut rep, &mut unit);
         }
@@ -100,5 +104,12 @@ fn main() {
             "the codec compares input bytes only with FE and FD (alphabet has a representative of every class: FE, FD, below FD, FD-1, above FE)".into(),
             "reference codec in mc_core::refcodec written from the format description with literal limits".into(),
         ],
+        decode_breadcrumb: Some(|ctx, bytes| {
+            let text = String::from_utf8_lossy(bytes).to_string();
+            if text.trim().is_empty() {
+                return None;
+            }
+            Some((format!("{}:abort:{}", ctx.prop, text.trim().replace(['\n', ' '], ";")), text))
+        }),
     });
 }
